@@ -80,6 +80,17 @@ def slack_tripped_int(t: int, reads, thr: int) -> str:
     return 'slack_tripped_only_on_earlier_reads'
 
 
+def pick_bit(rng, nbits: int) -> int:
+    """Which bit of a key, point, scalar or signature to flip: uniformly, but one time
+    in three one of the structurally special ones -- the top bits of the (little-endian)
+    value, i.e. the sign bit of a compressed point and bits 252..255 of a scalar, for
+    both halves of a 64-byte signature, and bit 0."""
+    if rng.chance(1, 3):
+        return rng.choice([b for b in (nbits - 1, nbits - 2, nbits - 3, nbits - 4, 0,
+                                       255, 254, 253, 252, 256) if 0 <= b < nbits])
+    return rng.below(nbits)
+
+
 def malleate(sig: bytes) -> bytes:
     """(R, S) -> (R, S + L): the same group equation in a non-canonical encoding
     (S < L < 2^253, so the sum always fits).  libsodium refuses it; so must the code."""
